@@ -79,15 +79,27 @@ def run_case(case):
     dm22 = j.Dm22(ca)
     dm11 = j.Dm11(ca)
     q = j.Dm14Query(ca)
-    obs = dict(calls_nonoperational=0, calls_operational=0, frames_attributed=0, null_address_requests=0, job_thread_died=0)
+    obs = dict(calls_nonoperational=0, calls_operational=0, frames_attributed=0, null_address_requests=0, job_thread_died=0, probes_inside_claim_send=0, slow_interface_cases=0)
 
     # sample the CA's state at the emission of every frame
     at_emit = {}
 
+    inside = []          # probes made from inside the send call of one of the CA's own claim / cannot-claim frames
+
     def hook(fr):
         if fr.src == 'A':
             at_emit[fr.idx] = (ca.state, ca.device_address)
+            if C.split_id(fr.can_id)['pf'] == C.PF_ADDRESS_CLAIM and probe_inside and len(inside) < 4 and not in_probe[0]:
+                # another thread of the application calls the send entry points exactly while this claim frame is being handed to the
+                # interface (the claim state the CA has entered for this frame is what counts)
+                inside.append(sim.now)
+                probe(spawn_read=False)
     W.bus.on_frame_hooks.append(hook)
+    in_probe = [0]
+    prng_ = random.Random(case['seed'] ^ 0x1C13)
+    probe_inside = prng_.random() < 0.5
+    if prng_.random() < 0.25:
+        A.send_time = 0.08          # a slow interface: the send call of every frame blocks the job thread for 80 ms (claims of others arrive meanwhile)
 
     t_start = 0.3
     delay = rng.choice([0.01, 0.1, 0.3])
@@ -150,18 +162,27 @@ def run_case(case):
             ('dm11', lambda: dm11.request_clear_all(dest)),
         ]
 
-    def probe():
+    def probe(spawn_read=True):
         st0, ad0 = ca.state, ca.device_address
         operational = st0 == ST.NORMAL
-        for name, fn in entry_points():
-            rec = W.call(name, fn)
-            own = [f for f in W.bus.frames[rec['frames_before']:rec['frames_after']] if f.src == 'A']
-            results.append((sim.now, name, operational, rec, own, ad0))
+        in_probe[0] += 1
+        try:
+            for name, fn in entry_points():
+                if name == 'send_pgn_long' and (not spawn_read or A.send_time):
+                    continue          # no transport session that would still be running (from the old address) when the CA loses it
+                rec = W.call(name, fn)
+                own = [f for f in W.bus.frames[rec['frames_before']:rec['frames_after']] if f.src == 'A' and f.thread == rec['thread']]
+                results.append((sim.now, name, operational, rec, own, ad0))
+        finally:
+            in_probe[0] -= 1
+        if not spawn_read:
+            return
         # Dm14Query.read blocks: run it in an application task
         box = {}
 
         def task():
             n0 = len(W.bus.frames)
+            box['state'] = (ca.state == ST.NORMAL, ca.device_address)       # sampled when the task actually starts (it runs on from here without a switch)
             try:
                 q.read(dest, 1, 0x1000, 1, max_timeout=0.05)
                 box['exc'] = None
@@ -184,6 +205,8 @@ def run_case(case):
     dm1_frames = [f for f in W.bus.frames[n_dm1:] if f.src == 'A']
     if W.liveness_problems():
         obs['job_thread_died'] += 1
+    obs['probes_inside_claim_send'] = len(inside)
+    obs['slow_interface_cases'] = 1 if A.send_time else 0
 
     # ---- oracle ------------------------------------------------------------------------------------
     def is_claim(fr):
@@ -202,6 +225,8 @@ def run_case(case):
     for (t, name, operational, rec, own, ad0) in results:
         if name == 'dm14_read':
             box = rec
+            if 'state' in box:
+                operational, ad0 = box['state']
             if 'frames' not in box:
                 viol.add('call_never_returned', 'Dm14Query.read (50 ms time-out) started at %.4f never returned' % t, **tag)
                 continue
